@@ -331,6 +331,9 @@ def _count_number(v):
     return None
 
 
+NORAISE = "<some expansion, no exception>"
+
+
 def expected_syn(case):
     """(expected text | None when outside the documented domain, reason)"""
     m = case["msg"]
@@ -347,7 +350,9 @@ def expected_syn(case):
         if ndesc is not None:
             ng = mk_n(ndesc)
             if num is None and "locale" in ndesc:
-                return None, "gettext's ngettext needs a number"
+                # the count is handed to gettext's ngettext, which accepts numbers only: the documentation still
+                # promises an expansion (the plural form); which text exactly is gettext's business
+                return NORAISE, "gettext's ngettext needs a number"
             tmpl = ng(m["s"], m["p"], num if num is not None else n)
         else:
             tmpl = tr(m["s"]) if num == 1 else tr(m["p"])
@@ -377,6 +382,8 @@ def oracle_syn(case):
         return fails  # outside the documented domain: nothing is promised
     if obs["raise"] is not None:
         fails.append({"clause": "expands-without-error", "expected": exp, "observed": obs["raise"]})
+        return fails
+    if exp == NORAISE:
         return fails
     if obs["result"] != exp:
         fails.append({"clause": "documented-expansion", "expected": exp, "observed": obs["result"]})
@@ -551,6 +558,7 @@ def builtin_scenarios():
         ("ValueAtLeast.failure", {"cls": "ValueAtLeast", "minimum": 5}, sc(I, None)),
         ("ValueBetween.failure_inclusive", {"cls": "ValueBetween", "minimum": 1, "maximum": 3, "inclusive": True}, sc(I, 9)),
         ("ValueBetween.failure_exclusive", {"cls": "ValueBetween", "minimum": 1, "maximum": 3, "inclusive": False}, sc(I, 3)),
+        ("MapEqual.unequal", {"cls": "MapEqual", "field_paths": ["x", "y"]}, two("p", "q")),
         ("ValuesEqual.unequal", {"cls": "ValuesEqual", "field_paths": ["x", "y"]}, two("p", "q")),
         ("UnisEqual.unequal", {"cls": "UnisEqual", "field_paths": ["x", "y"]}, two("p", "q")),
         ("NotDuplicated.failure", {"cls": "NotDuplicated"}, dict(lst(3), index=2)),
@@ -623,18 +631,17 @@ def in_class_kf_a(case):
     return any(k in items and not any(k in s for s in srcs) for k in used_keys(case))
 
 
-def in_class_d1(case):
-    """state supports [index] but is not a mapping (list / tuple / str)"""
-    return case.get("k") == "syn" and (case.get("state") or {}).get("kind") == "seq"
-
-
 def in_class_kf_b(case):
-    """plural triple whose resolved count is a text that is not an integer literal"""
+    """plural triple handed to a gettext-backed ungettext (GNUTranslations.ngettext) with a count that is not a
+    number: non-integer text, None, or a count key no source defines"""
     if case.get("k") != "syn" or case["msg"]["t"] != "plural":
         return False
-    found, n = doc_lookup(doc_sources(case), case["msg"]["n"])
-    if not found or not isinstance(n, str):
+    ndesc = doc_translator(case, "n")
+    if not (isinstance(ndesc, dict) and "locale" in ndesc):
         return False
+    found, n = doc_lookup(doc_sources(case), case["msg"]["n"])
+    if not found:
+        return True
     u = mk_u(doc_translator(case, "u"))
     if u:
         n = u(n)
@@ -683,6 +690,9 @@ BAD_COUNTS = ["abc", "", "1.0", "1 0", "_1", "1_"]
 
 def rand_tr(rng, tag):
     r = rng.random()
+    if r < 0.08:
+        return {"locale": rng.choice(LANGS)}
+    r = rng.random()
     if r < 0.5:
         return {"tag": tag, "tbl": []}
     if r < 0.8:
@@ -692,6 +702,8 @@ def rand_tr(rng, tag):
 
 
 def rand_ntr(rng, tag):
+    if rng.random() < 0.12:
+        return {"locale": rng.choice(LANGS)}
     return {"tag": tag if rng.random() < 0.8 else None, "rule": rng.choice(["ne1", "ne1", "gt1"])}
 
 
@@ -830,6 +842,23 @@ def sanitize(c):
                 m[form] = m[form].replace("%(value)s", "%(label)s").replace("%(u)s", "%(name)s")
         if m.get("n") in ("value", "u"):
             m["n"] = "cnt"
+    if c["chain"][0]["kind"] == "dict":
+        # a child *element* handed to real gettext is unhashable (part of KF-C16-a, not modelled): keep the
+        # shipped catalogues away from Mapping elements with children
+        def detag(t):
+            return {"tag": "L", "tbl": []} if isinstance(t, dict) and "locale" in t else t
+        st = c.get("state") or {}
+        for key in ("u_attr", "u_item"):
+            if isinstance(st.get(key), dict):
+                st[key] = {"v": detag(st[key]["v"])}
+        for e in c["chain"]:
+            if isinstance(e.get("u_inst"), dict):
+                e["u_inst"] = {"v": detag(e["u_inst"]["v"])}
+            if "u_cls" in e:
+                e["u_cls"] = detag(e["u_cls"])
+        b = c.get("builtins") or {}
+        if isinstance(b.get("u"), dict):
+            b["u"] = {"v": detag(b["u"]["v"])}
     return c
 
 
@@ -871,7 +900,7 @@ class C16(Property):
     theorems = ["Flatland.C16.Proofs." + t for t in (
         "priority_partial", "priority_first_defined", "priority_none_defined", "C16_full_fails",
         "plural_choice", "plural_missing_count", "ungettext_receives_count",
-        "findTransformer_eq_spec", "transformer_full_fails", "translator_applied",
+        "findTransformer_eq_spec", "transformer_full", "translator_applied",
         "expand_plain_refines", "expand_plural_refines",
         "expand_total", "no_percent_left", "expandMessage_ok_expansion",
         "builtin_expand_total", "catalogue_expand_total")]
@@ -892,13 +921,13 @@ class C16(Property):
         "`.value`/`.u` of container elements are kept out of generated templates",
     ]
     level_text = "proof"
-    level_note = ("proved for all inputs on model A: source priority (partial: KF-C16-a), plural choice, translator search (partial: D-C16-1) and "
+    level_note = ("proved for all inputs on model A: source priority (partial: KF-C16-a), plural choice, translator search (full) and "
                   "application, refinement of expand_message to the documented expansion, total expansion; the catalogue/template theorems are "
                   "instantiated by `decide` on tables regenerated from /repo on every run.  The tie model<->code is differential (correspondence).")
     technique = "Lean 4 model + theorems; regenerated tables (translator route) + differential correspondence + Python oracle with real gettext"
     rule = ("synthetic validators: each of 8 keys defined by a random subset of the five documented sources with distinct values; plain and plural "
             "messages with counts from {0,1,2,5,-1,'1',' 1 ','+1','01','1_0',True,False,None,100,non-numbers}; translators (tagging, table, None) "
-            "placed on state attr/item, element instance/class, up to 3 ancestors, builtins; hostile stream: malformed templates, list state, "
+            "and the shipped catalogues' gettext/ngettext placed on state attr/item, element instance/class, up to 3 ancestors, builtins; hostile stream: malformed templates, list state, "
             "Mapping element with children named like keys, non-numeric counts, unsupported conversions.  Exhaustive: all 2^5 definedness "
             "patterns x {fresh key, label} x {no translator, builtins translator}.  Built-in stream: every failing built-in validator scenario x "
             "{source,de,es,fr} x translator placement.  non-trivial = an expansion was produced and the message uses at least one key")
@@ -912,14 +941,24 @@ class C16(Property):
         c = base_case()
         c["chain"][0] = {"kind": "dict", "attrs": [["name", "d"], ["label", "d"]], "items": [["label", {"elem": "child"}]]}
         out.append(c)
-        # D-C16-1: list state
+        # fixed 3d5403b (D-C16-1): list state
         c = base_case()
         c["state"] = {"kind": "seq", "items": [], "attrs": []}
         out.append(c)
-        # KF-C16-b: count text that is not a number
+        c = copy.deepcopy(c)
+        c["chain"][0]["u_inst"] = {"v": {"tag": "E", "tbl": []}}
+        out.append(c)
+        # fixed b2dcb3b (old KF-C16-b): count text that is not a number -> plural form
         c = base_case()
         c["msg"] = {"t": "plural", "s": "one", "p": "many %(cnt)s", "n": "cnt"}
         c["kwargs"] = [["cnt", "abc"]]
+        out.append(c)
+        c = copy.deepcopy(c)
+        c["state"] = {"kind": "dict", "items": [], "attrs": [], "n_item": {"v": {"tag": "N", "rule": "ne1"}}}
+        out.append(c)
+        # open KF-C16-b (residual): the same count handed to real gettext's ngettext
+        c = copy.deepcopy(c)
+        c["state"]["n_item"] = {"v": {"locale": "de"}}
         out.append(c)
         return out
 
@@ -988,11 +1027,9 @@ class C16(Property):
 
     def classify(self, case, failure):
         cl = failure.get("clause")
-        if in_class_d1(case) and cl == "expands-without-error" and failure.get("observed") == "TypeError":
-            return "D-C16-1"
         if in_class_kf_a(case) and cl in ("documented-expansion", "note_error-records-once", "expands-without-error"):
             return "KF-C16-a"
-        if in_class_kf_b(case) and cl == "expands-without-error" and failure.get("observed") == "ValueError":
+        if in_class_kf_b(case) and cl == "expands-without-error" and failure.get("observed") == "TypeError":
             return "KF-C16-b"
         return None
 
